@@ -198,7 +198,7 @@ PROPERTIES = {
     "C11": {"rules": ["M-PANIC", "M-LINES", "M-LOCS"], "level": "other"},
     "C12": {"rules": ["M-DIGEST"], "level": "other"},
     "C13": {"rules": ["M-DET", "M-PAR", "M-DIRTAINT"], "level": "other"},
-    "C19": {"rules": ["T-X", "M-EMIT"], "level": "translation_validation"},
+    "C19": {"rules": ["T-X", "M-EMIT", "M-DIRTAINT"], "level": "translation_validation"},
     "C20": {"rules": ["M-DETRT", "T-DET", "M-UNSAFE", "M-FREEZE"], "level": "other"},
     "C15": {"rules": ["T-ALLOC", "T-ENUM", "T-DELTA"], "level": "other"},
     "C07": {"rules": ["T-LOOP", "T-PENDING"], "level": "other"},
